@@ -359,7 +359,7 @@ class AbstractMessageLogEntry(abc.ABC):
             elif operator == ">=":
                 return val >= expected
             elif operator == "&":
-                return val & expected
+                return bool(val & expected)
             else:
                 raise ValueError(f"Unexpected operator {operator!r}")
         except (TypeError, AttributeError):
